@@ -1,7 +1,7 @@
 # Per-property metadata for ./check and gen_manifest.py: which worker build,
 # budgets, evidence texts, level claims.
 
-HOOK_COMMITS = []
+HOOK_COMMITS = ["5b23384"]
 
 REAL_A = ["package serf (all of it)", "memberlist v0.5.4 (passive: probe/gossip/push-pull timers off; stream join real)", "go-msgpack"]
 SIM_A = ["network (simnet: in-memory packets, net.Pipe streams)", "clock (testing/synctest fake clock)",
@@ -139,6 +139,14 @@ PROPS["C22"] = A("cases are seeded sequences of install-key/use-key/remove-key r
 PROPS["C20"] = A("cases are seeded histories of probe acknowledgements delivered through the real ping delegate of a real node: sane coordinates, byzantine ones (NaN, +-Inf, 1e308, 5e-324, wrong dimension, nil vector, negative height/error), bad version byte, garbage, empty payloads, with round-trip times from negative through 0 to > 10 s and int64 extremes, for 4 peers (the client is stateful: latency filter, adjustment window); distinct = distinct step-list hash; non-trivial = at least one observation",
     "Seeded exploration; after every step the local coordinate is finite with the configured dimension, height >= minimum, error within [0,max] while all accepted peers reported non-negative error; a step the model classifies invalid leaves the coordinate bit-identical and the peer's cached coordinate unchanged; accepted observations are cached. Thin use of the simulator (one node, no concurrency): the inputs are network/clock faults accumulated over a history. Exact replay.",
     quick=(4000, 45), thorough=(200000, 900))
+PROPS["C17"] = A("cases are seeded sequences of join/leave/failed/update/reap events over 1-4 member names fed to the real coalesceLoop + memberEventCoalescer, with fake-clock gaps drawn around the quiescent (100 ms) and quantum (1 s) periods so that flushes fall at every possible point; distinct = distinct step-list hash; non-trivial = at least one event fed",
+    "Seeded exploration on the fake clock against a reference model (latest event per member since the last flush; kind last reported). Flush boundaries are observed: the simulator is the only producer, so the output of one clock advance is one flush. Per flush: each member at most once, with its latest event, nothing for members without a new event, same kind as last suppressed unless update, reportable members not omitted. Exact replay.",
+    quick=(6000, 45), thorough=(300000, 900), engine="A replica simulator (coalescer stage only, fake clock)",
+    real=["serf.coalesceLoop, memberEventCoalescer, userEventCoalescer (constructed through the verif-tagged exported constructors)"], simulated=["clock (synctest)", "event stream"])
+PROPS["C18"] = A("cases are seeded sequences of user events (3 names, Lamport times 0-5 with ties, coalescable or not), member events and queries fed to the real coalesceLoop + userEventCoalescer with fake-clock gaps around the quiescent and quantum periods; distinct = distinct step-list hash; non-trivial = at least one event fed",
+    "Seeded exploration on the fake clock: per observed flush and coalescable name exactly the events with the highest Lamport time since the previous flush, in arrival order; events not marked coalescable and other kinds come out immediately and unchanged; nothing is held back for more than 2.5 s. Exact replay.",
+    quick=(6000, 45), thorough=(300000, 900), engine="A replica simulator (coalescer stage only, fake clock)",
+    real=["serf.coalesceLoop, memberEventCoalescer, userEventCoalescer (constructed through the verif-tagged exported constructors)"], simulated=["clock (synctest)", "event stream"])
 PROPS["C14"] = D("cases are seeded histories against a real Serf node whose snapshot lives on simfs: user events and queries delivered by gossip and push/pull, real joins (with/without ignoreOld) against a real peer holding events, fake-time advances around the 500 ms flush interval, and 1-3 restarts (crash: only bytes already handed to the OS survive; or clean shutdown) followed by old and new messages; distinct = distinct step-list hash; non-trivial = messages injected after a restart",
     "Seeded exploration; E and Q are read by the real recovery from the image the restart starts from; any user event with time <= E or query with time <= Q on the application channel after the restart is a violation. Exact replay.",
     quick=(2500, 60), thorough=(100000, 1200),
